@@ -1,6 +1,7 @@
 """C11 (hierarchical references canonical and valid: H1-H4, H6-H8) and C12 (cross-hierarchy
 tracing: H3', H5, H9) — kind inference of HRef chains + structural rules."""
 import ast
+import copy
 import re
 
 from ..core import AnalysisError, norm, short, walk_local, parent_chain, reaching_assign
@@ -967,6 +968,12 @@ def check_c11(ctx, R):
         if isinstance(a, ast.Assign) and isinstance(a.value, ast.Constant) and isinstance(a.value.value, str) and "sep" in norm(a.targets[0]):
             sep = a.value.value
     if sep is None:
+        # the separator is what the name pieces are joined with, however it is held
+        for c in walk_local(_locals_written_out(nm).node):
+            if isinstance(c, ast.Call) and isinstance(c.func, ast.Attribute) and c.func.attr == "join" and isinstance(c.func.value, ast.Constant) \
+                    and isinstance(c.func.value.value, str) and c.func.value.value:
+                sep = c.func.value.value
+    if sep is None:
         raise AnalysisError("H6: cannot find the separator literal of HRef.name")
     nsrc = norm(nm.node)
     from ..strings import templates_in, bracketed_holes
@@ -997,7 +1004,26 @@ def check_c11(ctx, R):
                 if "wire" in fn or "pin" in src.split("def ")[1][:40] or "cable.wires" in src or "port.pins" in src:
                     if "cable.wires" in src or "port.pins" in src:
                         named = [t_ for _, t_ in templates_in(f.node) if bracketed_holes(t_) and t_.index(bracketed_holes(t_)[0]) >= 2]
-                        if named and "lower_index +" in src and ("is_scalar" in src or "is_array" in src):
+                        # the number between the brackets is lower_index + position, once: a position that already starts at lower_index
+                        # (`enumerate(cable.wires, cable.lower_index)`) and gets lower_index added again is off by lower_index
+                        doubled = None
+                        for t_ in named:
+                            h_ = bracketed_holes(t_)[0]
+                            adds = sum(1 for x in ast.walk(h_) if isinstance(x, ast.Attribute) and x.attr == "lower_index")
+                            for v_ in (x.id for x in ast.walk(h_) if isinstance(x, ast.Name)):
+                                for lp_ in walk_local(f.node):
+                                    if isinstance(lp_, ast.For) and isinstance(lp_.iter, ast.Call) and norm(lp_.iter.func) == "enumerate" and isinstance(lp_.target, ast.Tuple) \
+                                            and norm(lp_.target.elts[0]) == v_:
+                                        start = lp_.iter.args[1] if len(lp_.iter.args) > 1 else next((k.value for k in lp_.iter.keywords if k.arg == "start"), None)
+                                        if start is not None:
+                                            adds += sum(1 for x in ast.walk(start) if isinstance(x, ast.Attribute) and x.attr == "lower_index")
+                            if adds > 1:
+                                doubled = h_
+                        if doubled is not None:
+                            R.bad("H6", "%s|bus offset twice" % f.key, f.loc(doubled),
+                                  "%s numbers the bits as `%s` over a position that already starts at lower_index: for a bus that does not start at 0 the name map "
+                                  "files every bit under a number HRef.name never produces (exact-name queries return nothing, or another bit)" % (fn, short(doubled, 40)))
+                        elif named and "lower_index +" in src and ("is_scalar" in src or "is_array" in src):
                             R.ok("H6", "%s: bus suffix" % fn, f.loc())
                         else:
                             R.bad("H6", "%s|bus-suffix" % f.key, f.loc(), "%s does not build `name[lower_index + position]` for array bundles only, as HRef.name does" % fn)
@@ -1108,6 +1134,171 @@ def _selection_sets(f):
     return out
 
 
+def _only_for_all(f, loop, push, mod=None):
+    """is `push` reached only when the selection is Selection.ALL?  Facts are read from the tests the statement sits under (either arm) and
+    from earlier `if T: continue / return / break / raise` statements of the enclosing blocks; a guard held in a local bound once is read
+    through the local."""
+    from ..pairing import alts_of
+    sel = "selection" if "selection" in f.params else (f.params[1] if len(f.params) > 1 else "selection")
+    once = {}
+    for a in walk_local(f.node):
+        if isinstance(a, ast.Assign) and len(a.targets) == 1 and isinstance(a.targets[0], ast.Name):
+            once.setdefault(a.targets[0].id, []).append(a.value)
+
+    def through_locals(t):
+        class S(ast.NodeTransformer):
+            def visit_Name(self, n):
+                v = once.get(n.id)
+                if v and len(v) == 1 and isinstance(n.ctx, ast.Load) and any(isinstance(z, ast.Name) and z.id == sel for z in ast.walk(v[0])):
+                    return copy.deepcopy(v[0])
+                return n
+        return S().visit(copy.deepcopy(t))
+
+    def pat_for(name):
+        return re.compile(r"(is|eq)\((\w+\.)*ALL,%s\)$|in\(%s,[\[{(](\w+\.)*ALL,?[\]})]\)$" % (re.escape(name), re.escape(name)))
+    pat = pat_for(sel)
+    # a flag parameter that every caller computes as `selection is Selection.ALL` stands for that test (the selection taken apart into
+    # booleans at the call)
+    flags = set()
+    if mod is not None:
+        calls = [c for c in ast.walk(mod.tree) if isinstance(c, ast.Call) and isinstance(c.func, ast.Name) and c.func.id == f.name]
+        names = [a.arg for a in f.node.args.posonlyargs + f.node.args.args] + [a.arg for a in f.node.args.kwonlyargs]
+        npos = len(f.node.args.posonlyargs + f.node.args.args)
+        for k, prm in enumerate(names):
+            acts = []
+            for c in calls:
+                a = next((kw.value for kw in c.keywords if kw.arg == prm), None)
+                if a is None and k < npos and k < len(c.args) and not any(isinstance(x, ast.Starred) for x in c.args):
+                    a = c.args[k]
+                acts.append(a)
+            if calls and all(a is not None for a in acts):
+                ok = True
+                for a in acts:
+                    al = alts_of(a, True)
+                    if not (al and all(any(pat_for("selection").match(x) for x in alt) for alt in al)):
+                        ok = False
+                if ok:
+                    flags.add(prm)
+
+    def pins(test, truth):
+        alts = alts_of(through_locals(test), truth)
+        return bool(alts) and all(any(pat.match(a) or any(a == "truthy(%s)" % fl for fl in flags) for a in alt) for alt in alts)
+
+    node = push
+    for p_ in parent_chain(push):
+        for fld in ("body", "orelse", "finalbody"):
+            blk = getattr(p_, fld, None)
+            if not isinstance(blk, list):
+                continue
+            idx = next((k for k, s_ in enumerate(blk) if s_ is node or any(z is node for z in ast.walk(s_))), None)
+            if idx is None:
+                continue
+            if isinstance(p_, ast.If) and pins(p_.test, fld == "body"):
+                return True
+            for s_ in blk[:idx]:
+                if isinstance(s_, ast.If) and not s_.orelse and s_.body and isinstance(s_.body[-1], (ast.Continue, ast.Return, ast.Break, ast.Raise)) and pins(s_.test, False):
+                    return True
+        if p_ is loop:
+            break
+        node = p_
+    return False
+
+
+def _narrow_selections_stop(ctx, R):
+    """the pin-to-wire closure exists twice (get_hwires, get_hcables).  For INSIDE / OUTSIDE / BOTH it returns the wire on that side of the
+    pin and stops; only ALL goes on from the wire it found to the other pins on it.  In every copy, each extension of the work list from a
+    wire just found is therefore under `selection is Selection.ALL` (sibling cross-check: the copies must agree)."""
+    R.rule("H5b", "narrow selections stop at the pin's own wire: every copy of the pin-to-wire closure extends its work list only under `selection is Selection.ALL`")
+    P = ctx.P
+    n = 0
+    helpers = set()
+    for m in ("get_hwires", "get_hcables"):
+        mod = P.module(UTIL + m + ".py")
+        f = mod.functions.get("_get_hwires_from_hpins")
+        if f is None:
+            cands = [g for g in mod.functions.values() if "selection" in g.params and any(isinstance(w, ast.While) for w in walk_local(g.node))
+                     and any(isinstance(y, ast.Yield) for y in walk_local(g.node)) and g.name.startswith("_") and len(g.params) == 2]
+            f = cands[0] if len(cands) == 1 else None
+        if f is None and any(t.endswith("._get_hwires_from_hpins") for t in mod.imports.values()):
+            R.ok("H5b", "%s uses the closure of its sibling module (one copy)" % m)
+            continue
+        if f is None:
+            raise AnalysisError("anchor vanished: the pin-to-wire closure of %s" % m)
+        # the work loop: a `while` whose body takes its next element off a list named in the loop test (pop / popleft)
+        loops, wl = [], None
+        for w in walk_local(f.node):
+            if not isinstance(w, ast.While):
+                continue
+            tested = {z.id for z in ast.walk(w.test) if isinstance(z, ast.Name)}
+            pops = [c.func.value.id for c in walk_local(w) if isinstance(c, ast.Call) and isinstance(c.func, ast.Attribute)
+                    and c.func.attr in ("pop", "popleft") and isinstance(c.func.value, ast.Name)]
+            pops = [q for q in pops if q in tested or (isinstance(w.test, ast.Constant) and w.test.value)]
+            if pops:
+                loops, wl = [w], pops[0]
+                break
+        if not loops:
+            raise AnalysisError("anchor vanished: the work loop of %s" % f.qualname)
+        for x in walk_local(loops[0]):
+            push = None
+            if isinstance(x, ast.AugAssign) and norm(x.target) == wl:
+                push = x
+            elif isinstance(x, ast.Assign) and any(norm(t) == wl for t in x.targets) and any(isinstance(z, ast.Name) and z.id == wl for z in ast.walk(x.value)):
+                push = x
+            elif isinstance(x, ast.Call) and isinstance(x.func, ast.Attribute) and norm(x.func.value) == wl and x.func.attr in ("append", "extend", "appendleft", "extendleft"):
+                push = x
+            if push is None:
+                continue
+            n += 1
+            guarded = _only_for_all(f, loops[0], push, mod)
+            helpers |= {(m, c.func.id) for c in ast.walk(push) if isinstance(c, ast.Call) and isinstance(c.func, ast.Name) and c.func.id in mod.functions}
+            for p_ in parent_chain(push):
+                if p_ is loops[0]:
+                    break
+                if isinstance(p_, ast.For):
+                    helpers |= {(m, c.func.id) for c in ast.walk(p_.iter) if isinstance(c, ast.Call) and isinstance(c.func, ast.Name) and c.func.id in mod.functions}
+            for nm in [z.id for z in ast.walk(push) if isinstance(z, ast.Name)]:
+                ra = reaching_assign(push if isinstance(push, ast.stmt) else getattr(push, "_parent", push), nm)
+                if ra is not None:
+                    helpers |= {(m, c.func.id) for c in ast.walk(ra.value) if isinstance(c, ast.Call) and isinstance(c.func, ast.Name) and c.func.id in mod.functions}
+            if guarded:
+                R.ok("H5b", "%s.%s extends its work list only for Selection.ALL" % (m, f.name), f.loc(push))
+            else:
+                R.bad("H5b", "%s|unguarded expansion" % f.key, f.loc(push),
+                      "%s pushes the pins of a wire it has just found (`%s`) for every selection: INSIDE / OUTSIDE / BOTH then follow the net through further "
+                      "levels instead of returning exactly the wire on that side of the pin" % (f.qualname, short(push, 50)))
+    # the pins of a wire are the same whoever asks: the helper that lists them decides from the wire alone (a parameter used as a truth
+    # value is a switch; a parameter compared with the pins found — the one to leave out — is the exclusion filter, which H9 reads)
+    def switches(e):
+        if isinstance(e, ast.Name):
+            return {e.id}
+        if isinstance(e, ast.BoolOp):
+            return set().union(*[switches(v) for v in e.values])
+        if isinstance(e, ast.UnaryOp) and isinstance(e.op, ast.Not):
+            return switches(e.operand)
+        if isinstance(e, ast.Compare) and len(e.ops) == 1 and isinstance(e.comparators[0], ast.Constant) and isinstance(e.left, ast.Name):
+            return {e.left.id}
+        return set()
+    for m, h in sorted(helpers):
+        g = P.module(UTIL + m + ".py").functions[h]
+        extra = set(g.params[1:])
+        hit = None
+        for t in walk_local(g.node):
+            tests = [t.test] if isinstance(t, (ast.If, ast.IfExp, ast.While)) else (list(t.ifs) if isinstance(t, ast.comprehension) else [])
+            for tt in tests:
+                if switches(tt) & extra:
+                    hit = hit or tt
+        if hit is None:
+            R.ok("H5b", "%s.%s lists the pins of a wire from the wire alone" % (m, h), g.loc(g.node))
+        else:
+            R.bad("H5b", "%s|pins listed by a switch" % g.key, g.loc(hit),
+                  "%s leaves out pins of the wire depending on `%s`: the closure then stops at pins it should cross (a net through a feed-through "
+                  "cell is cut there), and members of one net give different answers" % (g.qualname, short(hit, 40)))
+    if not helpers:
+        raise AnalysisError("anchor vanished: the helper that lists the pins of a wire in the closures")
+    R.count("work-list expansions in the pin-to-wire closures (H5b)", n)
+    R.floor("work-list expansions in the pin-to-wire closures (H5b)", 2)
+
+
 def _no_loop_carried_parent(ctx, R, rid, closure):
     """in the query modules a loop visits siblings (the pins of a wire, the children of a definition): the reference the siblings hang
     under is the same for all of them.  A parent argument that the loop body itself rebinds to a reference built from it
@@ -1164,11 +1355,12 @@ def _no_loop_carried_parent(ctx, R, rid, closure):
           "around a parent link that can be None (element removed from its parent) is never yielded without a test in between; H11' yields of the "
           "raw generators and of the work-list closures are de-duplicated on the value yielded; H7b' / H13' the occurrence enumeration the traces "
           "start from is closed under discovery and no step is pruned on the absence of child instances (a cell may consist of wires only); H9 no exclusion "
-          "inside a closure helper compares bare items; H15 the branch that handles a hierarchical reference enumerates nothing over all occurrences; H16' no loop-carried parent (see C11) on the closure side. Decides "
+          "inside a closure helper compares bare items; H15 the branch that handles a hierarchical reference enumerates nothing over all occurrences; H16' no loop-carried parent (see C11) on the closure side; H5b sibling cross-check of the two copies of the pin-to-wire closure: each extends its work list only when the selection is ALL (read from enclosing tests, earlier continue/return guards, once-bound locals and flag parameters every caller computes as `selection is Selection.ALL`), and the helper that lists the pins of a wire decides from the wire alone. Decides "
           "well-formedness of what the closure builds; that the closure equals the electrical net for every start point is not decided.")
 def check_c12(ctx, R):
     P = ctx.P
     _no_loop_carried_parent(ctx, R, "H16'", closure=True)
+    _narrow_selections_stop(ctx, R)
     R.rule("H3'", "chain typing of every closure-side factory call")
     n, typed = _typed_sites(ctx, R, "H3'", closure=True)
     R.count("closure factory sites (H3')", n)
@@ -1346,5 +1538,40 @@ def check_c12(ctx, R):
                         R.bad("H9", "%s|exclusion" % f.key, f.loc(c),
                               "%s: the work-list extension filters with `%s`; it must exclude exactly the hierarchical pin it came from (x != hpin)"
                               % (f.qualname, " and ".join(short(t, 50) for t in chain) or "nothing"))
+                # the same extension through a private helper that returns the filtered pins: `WL += others(hwire, hpin)` with
+                # `def others(w, excluded): return [x for x in pins(w) if x != excluded]` — read with the actuals in place
+                for c in walk_local(f.node):
+                    call = None
+                    if isinstance(c, ast.AugAssign) and norm(c.target) in worklists and isinstance(c.value, ast.Call):
+                        call = c.value
+                    elif isinstance(c, ast.Call) and isinstance(c.func, ast.Attribute) and c.func.attr == "extend" and norm(c.func.value) in worklists \
+                            and len(c.args) == 1 and isinstance(c.args[0], ast.Call):
+                        call = c.args[0]
+                    if call is None or not isinstance(call.func, ast.Name) or call.func.id not in mod.functions:
+                        continue
+                    h = mod.functions[call.func.id]
+                    body = [st for st in h.node.body if not (isinstance(st, ast.Expr) and isinstance(st.value, ast.Constant))]
+                    if not (len(body) == 1 and isinstance(body[0], ast.Return) and isinstance(body[0].value, (ast.ListComp, ast.GeneratorExp))
+                            and len(body[0].value.generators) == 1 and isinstance(body[0].value.generators[0].target, ast.Name)
+                            and len(call.args) == len(h.params) and not call.keywords):
+                        continue
+                    comp = body[0].value
+                    var = comp.generators[0].target.id
+                    if norm(comp.elt) != var:
+                        continue
+                    actual = {prm: norm(a) for prm, a in zip(h.params, call.args)}
+                    chain = list(comp.generators[0].ifs)
+                    n9 += 1
+                    ok = len(chain) == 1
+                    if ok:
+                        t = chain[0]
+                        ok = isinstance(t, ast.Compare) and len(t.ops) == 1 and isinstance(t.ops[0], ast.NotEq) and var in (norm(t.left), norm(t.comparators[0])) \
+                            and {actual.get(z, z) for z in ({norm(t.left), norm(t.comparators[0])} - {var})} <= set(popped)
+                    if ok:
+                        R.ok("H9", "%s excludes only the reference it came from (through %s)" % (f.qualname, h.name), f.loc(c))
+                    else:
+                        R.bad("H9", "%s|exclusion" % f.key, f.loc(c),
+                              "%s: the work-list extension filters with `%s` (in %s); it must exclude exactly the hierarchical pin it came from (x != hpin)"
+                              % (f.qualname, " and ".join(short(t, 50) for t in chain) or "nothing", h.name))
     R.count("closure exclusion filters (H9)", n9)
     R.floor("closure exclusion filters (H9)", 2)
